@@ -314,4 +314,60 @@ scratch_float!(c10_scratch__Minstarapproxf32, c10_scratch_layered__Minstarapprox
 scratch_float!(c10_scratch__Aminstarf64, c10_scratch_layered__Aminstarf64, Aminstarf64, f64);
 scratch_float!(c10_scratch__Aminstarf32, c10_scratch_layered__Aminstarf32, Aminstarf32, f32);
 
+// ---- C05 for the float arithmetics: the variable rule is the plain sum, degrees 1..=3 ----------
+// new LLR = channel LLR + all incoming messages (summed left to right from 0), message to check i
+// = new LLR - message i; exactly n sends, in order.  BOUNDED to degree 3.
+macro_rules! float_var {
+    ($name:ident, $ty:ident, $f:ty) => {
+        #[kani::proof]
+        #[kani::unwind(6)]
+        fn $name() {
+            let mut a = <$ty>::new();
+            let n: usize = kani::any();
+            kani::assume(n >= 1 && n <= 3);
+            let input: $f = kani::any();
+            kani::assume(input.abs() <= 1e30);
+            let mut msgs = [Message { source: 0usize, value: 0.0 as $f }; 3];
+            for k in 0..3 {
+                let x: $f = kani::any();
+                kani::assume(x.abs() <= 1e30);
+                msgs[k] = Message { source: 1000 + k, value: x };
+            }
+            let mut out = [SentMessage { dest: 0usize, value: 0.0 as $f }; 3];
+            let mut count = 0usize;
+            let ret = a.send_var_messages(input, &msgs[..n], |m| {
+                if count < 3 {
+                    out[count] = m;
+                }
+                count += 1;
+            });
+            let mut sum: $f = 0.0;
+            for k in 0..3 {
+                if k < n {
+                    sum = sum + msgs[k].value;
+                }
+            }
+            let llr = input + sum;
+            assert!(count == n);
+            assert!(ret == llr);
+            for k in 0..3 {
+                if k < n {
+                    assert!(out[k].dest == 1000 + k);
+                    assert!(out[k].value == llr - msgs[k].value);
+                }
+            }
+            kani::cover!(n == 3);
+            kani::cover!(n == 1);
+        }
+    };
+}
+float_var!(c05f_var__Phif64, Phif64, f64);
+float_var!(c05f_var__Phif32, Phif32, f32);
+float_var!(c05f_var__Tanhf64, Tanhf64, f64);
+float_var!(c05f_var__Tanhf32, Tanhf32, f32);
+float_var!(c05f_var__Minstarapproxf64, Minstarapproxf64, f64);
+float_var!(c05f_var__Minstarapproxf32, Minstarapproxf32, f32);
+float_var!(c05f_var__Aminstarf64, Aminstarf64, f64);
+float_var!(c05f_var__Aminstarf32, Aminstarf32, f32);
+
 include!(concat!(env!("VERIF_KANI_GEN"), "/playback_c04f.rs"));
